@@ -314,6 +314,14 @@ def aggregate_family():
     return [s for s in dict.fromkeys(out) if valid(s)]
 
 
+def tiny_family():
+    """every string of length <= 2 over a small alphabet, plus a few 3-character ones: index arithmetic on
+    the ends of the source (source[-1], source[:-1], ...) must not assume a minimum length"""
+    alpha = ["x", "1", " ", "\n", "\r", "\t", "#", "(", '"', ":", "\\", "é"]
+    out = [""] + alpha + [a + b for a in alpha for b in alpha] + ["x\n\n", "\n\nx", "x\r\n", "  x", "x  ", "\n \n"]
+    return list(dict.fromkeys(out))
+
+
 def small_function_family():
     """an enumerated family of small functions: two blocks per body over if/else, loops, returns,
     assignments and calls (all used, so little is deleted)"""
@@ -391,6 +399,7 @@ def build_corpus(tier: str) -> dict[str, list[str]]:
     fam["imports"] = import_family()
     fam["resources"] = resource_family()
     fam["aggregates"] = aggregate_family()
+    fam["tiny"] = tiny_family()
     if tier == "quick":
         fam["functions"] = fam["functions"][::5]
     return fam
